@@ -11,6 +11,11 @@
     pub_ser <xpub> <version>
     k_ser <seed> <net> <pv|-> <bv|-> <path> <pver|-> <bver|->   key at path: xprv(pver) xpub(bver) pub.raw_serialize()
     k_child / k_pubchild … <path> <index:int> | k_pubtrav … <path> <path2>   (used by the object-reuse histories)
+    px_trav <xprv> <path>                                   parse(xprv).traverse(path) → key dump
+    priv_raw_parse <78 bytes> <net|-> | pub_raw_parse <78 bytes> <net|->    raw_parse(stream, network) → key dump
+    spec_xprv <version> <depth> <fp> <i> <chain code> <k> <xprv> | spec_xpub … <sec> <xpub>
+                                                            the BIP32 serialisation of the given fields, Base58Check
+                                                            encoded (the last token is what the implementation re-serialises)
     consistent <xprv> <index:int>                           (child.pub dump, pub.child dump)
     valid_path <path> | combine <p> <q> | secret_path k r1…rk | blind <xpub> <p> <s>
     child_to_path <n> | bin_path <bytes>
@@ -169,6 +174,39 @@ def handle : List String → String
       pure <| orReject do
         let k ← (← fromSeed hmac seed net pv bv).traverse hmac h160 path
         dumpPub (← k.pub.traverse hmac h160 path2)
+  | ["px_trav", x, path] => optS do
+      let x ← parseS x
+      let path ← parseS path
+      pure <| orReject do
+        let k ← HDPriv.parse h256 x
+        dumpPriv (← k.traverse hmac h160 path)
+  | ["priv_raw_parse", raw, net] => optS do
+      let raw ← parseBytes raw
+      let net ← if net = "-" then some none else (parseStr net).map some
+      pure <| orReject do dumpPriv (← HDPriv.rawParse raw net)
+  | ["pub_raw_parse", raw, net] => optS do
+      let raw ← parseBytes raw
+      let net ← if net = "-" then some none else (parseStr net).map some
+      pure <| orReject do dumpPub (← HDPub.rawParse raw net)
+  | ["spec_xprv", v, depth, fp, i, cc, k, _x] => optS do
+      let v ← parseBytes v
+      let depth ← parseNat depth
+      let fp ← parseBytes fp
+      let i ← parseNat i
+      let cc ← parseBytes cc
+      let k ← parseNat k
+      pure (orReject ((Base58.encodeBase58Checksum h256 (Spec.BIP32.serializePriv v depth fp i cc k)).map fmtS))
+  | ["spec_xpub", v, depth, fp, i, cc, K, _x] => optS do
+      let v ← parseBytes v
+      let depth ← parseNat depth
+      let fp ← parseBytes fp
+      let i ← parseNat i
+      let cc ← parseBytes cc
+      let K ← parseBytes K
+      match parseSec K with
+      | none => none
+      | some pt =>
+        pure (orReject (((Spec.BIP32.serializePub v depth fp i cc pt).bind (Base58.encodeBase58Checksum h256)).map fmtS))
   | ["valid_path", p] => optS do
       let p ← parseS p
       pure (fmtBool (isValidBip32Path p))
